@@ -63,7 +63,12 @@ Val(v) == [ok |-> TRUE, v |-> v]
 
 ---------------------------------------------------------------------------
 (* typed write:  a = [op |-> "w", t, tok, n, lim]   (lim >= 0: WriteLimitString) *)
-WriteOK(a) == ~(a.lim >= 0 /\ Len(a.tok) > a.lim)
+(* A string / raw token is the tuple of its bytes or, for long payloads,    *)
+(* a reference <<-1, length, digest..., first and last bytes>> (bytes are   *)
+(* never negative, so the two forms cannot be confused; the harness uses    *)
+(* the reference form for every payload above 256 bytes, written or read).  *)
+TokLen(tok) == IF Len(tok) > 1 /\ tok[1] = -1 THEN tok[2] ELSE Len(tok)
+WriteOK(a) == ~(a.lim >= 0 /\ TokLen(a.tok) > a.lim)
 ULen == IF phase = "w" THEN total ELSE avail - off           \* length of the unread region
 UOff == IF phase = "w" THEN 0 ELSE off
 ReplyW(a)  == [ok |-> WriteOK(a), len |-> IF WriteOK(a) THEN ULen + a.n ELSE ULen, pan |-> 0]
@@ -148,7 +153,7 @@ InScope(a) ==
 Known(a) == phase = "r" /\ sync /\ InScope(a) /\ (IF AtEnd THEN TRUE ELSE ~HeadIt.dirty)
 DirtyHead(a) == IF AtEnd THEN FALSE ELSE InScope(a) /\ HeadIt.dirty
 
-Over(a) == a.lim >= 0 /\ Len(HeadIt.tok) > a.lim
+Over(a) == a.lim >= 0 /\ TokLen(HeadIt.tok) > a.lim
 Fits    == off + HeadIt.n <= avail
 
 (* the buffer reader *)
@@ -249,8 +254,8 @@ ModelN(t, tok) ==
     [] t \in {"u64", "i64", "f64"}   -> 8
     [] t \in {"vu64", "vi64"}        -> <<1, 2, 5, 10>>[tok[1] + 1]
     [] t \in {"vu32", "vi32"}        -> <<1, 2, 3, 5>>[tok[1] + 1]
-    [] t = "str"                     -> Pfx + Len(tok)
-    [] t = "raw"                     -> Len(tok)
+    [] t = "str"                     -> Pfx + TokLen(tok)
+    [] t = "raw"                     -> TokLen(tok)
     [] OTHER                         -> 0
 
 CONSTANTS ScalarTypes, ScalarIdx, ByteToks, Lims, MaxItems, MaxRW, ChunkSets, URems
@@ -260,7 +265,7 @@ WActs ==
             t \in ScalarTypes, i \in ScalarIdx}
   \cup {[op |-> "w", t |-> "str", tok |-> s, n |-> ModelN("str", s), lim |-> l] :
             s \in ByteToks, l \in Lims \cup {-1}}
-  \cup {[op |-> "w", t |-> "raw", tok |-> s, n |-> Len(s), lim |-> -1] : s \in ByteToks}
+  \cup {[op |-> "w", t |-> "raw", tok |-> s, n |-> TokLen(s), lim |-> -1] : s \in ByteToks}
 
 RWActs ==
        {[op |-> "rw", kind |-> "p", pos |-> p, plen |-> Len(s), tok |-> s] :
